@@ -568,3 +568,147 @@ pub fn n_attr_text() {
         }
     }
 }
+
+// C08 (element level): replay on a real instance of the specification with the same answers the solver chose
+// (container mode / multiplicity / group mode / availability in the file version): the element types reachable from the
+// root are searched for a matching (element type, sub-element) and the real check is called on it, strict and lenient.
+#[cfg(not(kani))]
+fn n_all_types() -> std::vec::Vec<ElementType> {
+    let mut seen = std::collections::HashSet::new();
+    let mut out = std::vec::Vec::new();
+    let mut queue = std::collections::VecDeque::new();
+    queue.push_back(ElementType::ROOT);
+    seen.insert(ElementType::ROOT);
+    while let Some(t) = queue.pop_front() {
+        out.push(t);
+        for (_name, st, _, _) in t.sub_element_spec_iter() {
+            if seen.insert(st) {
+                queue.push_back(st);
+            }
+        }
+    }
+    out
+}
+
+#[cfg(not(kani))]
+fn n_cm(i: u8) -> ContentMode {
+    match i {
+        0 => ContentMode::Sequence,
+        1 => ContentMode::Choice,
+        2 => ContentMode::Bag,
+        _ => ContentMode::Mixed,
+    }
+}
+
+#[cfg(not(kani))]
+pub fn n_c08_element() {
+    let mode = vk::any_u8();
+    let version = AutosarVersion::Autosar_00050;
+    let mk = |strict: bool| {
+        let mut p = ArxmlParser::new(PathBuf::new(), &[], strict);
+        p.fileversion = version;
+        p
+    };
+    let relation = |rs: &Result<(), AutosarDataError>, rl: &Result<(), AutosarDataError>, pl: &ArxmlParser| {
+        match (rs, rl) {
+            (Ok(()), Ok(())) => vk_check!(pl.warnings.is_empty(), "strict accepts what lenient warns about"),
+            (Ok(()), Err(_)) => vk_check!(false, "strict accepts what lenient rejects"),
+            (Err(es), Ok(())) => {
+                vk_check!(!pl.warnings.is_empty(), "lenient silently accepts what strict rejects");
+                vk_check!(err_kind(es) == err_kind(&pl.warnings[0]), "strict error is not the first lenient warning");
+            }
+            (Err(_), Err(_)) => {}
+        }
+    };
+    if mode == 0 {
+        // multiplicity
+        let cmode = n_cm(vk::any_u8());
+        let mult = match vk::any_u8() { 1 => Some(ElementMultiplicity::ZeroOrOne), 2 => Some(ElementMultiplicity::One), 3 => Some(ElementMultiplicity::Any), _ => None };
+        let dup = vk::any_bool();
+        let Some(mult) = mult else { return; };
+        for t in n_all_types() {
+            let mut subs = std::vec::Vec::new();
+            for (name, _st, _, _) in t.sub_element_spec_iter() {
+                if let Some((st, idx)) = t.find_sub_element(name, u32::MAX) {
+                    subs.push((name, st, idx));
+                }
+            }
+            for (name, st, idx) in &subs {
+                if t.get_sub_element_container_mode(idx) != cmode || t.get_sub_element_multiplicity(idx) != Some(mult) {
+                    continue;
+                }
+                // existing content: the same sub-element (dup) or a different one
+                let other = subs.iter().find(|(n, _, _)| n != name);
+                let (ename, etype) = if dup { (*name, *st) } else { match other { Some((n, s, _)) => (*n, *s), None => continue } };
+                let child = ElementRaw { parent: ElementOrModel::None, elemname: ename, elemtype: etype, content: SmallVec::new(), attributes: SmallVec::new(), file_membership: HashSet::with_capacity(0), comment: None }.wrap();
+                let mut content = SmallVec::new();
+                content.push(ElementContent::Element(child));
+                let parent = ElementRaw { parent: ElementOrModel::None, elemname: ElementName::Autosar, elemtype: t, content, attributes: SmallVec::new(), file_membership: HashSet::with_capacity(0), comment: None };
+                let (mut ps, mut pl) = (mk(true), mk(false));
+                let rs = ps.check_multiplicity(*name, t, idx, &parent);
+                let rl = pl.check_multiplicity(*name, t, idx, &parent);
+                relation(&rs, &rl, &pl);
+                let must_reject = dup && (cmode == ContentMode::Sequence || cmode == ContentMode::Choice) && mult != ElementMultiplicity::Any;
+                vk_check!(rs.is_err() == must_reject, "strict multiplicity check differs from the documented rule (repeated single-occurrence sub-element)");
+                return;
+            }
+        }
+    } else if mode == 1 {
+        // exclusive choice
+        let gmode = n_cm(vk::any_u8());
+        let different = vk::any_bool();
+        for t in n_all_types() {
+            let mut subs = std::vec::Vec::new();
+            for (name, _st, _, _) in t.sub_element_spec_iter() {
+                if let Some((_, idx)) = t.find_sub_element(name, u32::MAX) {
+                    subs.push((name, idx));
+                }
+            }
+            for i in 0..subs.len() {
+                for j in 0..subs.len() {
+                    if (i != j) != different {
+                        continue;
+                    }
+                    if i != j && t.find_common_group(&subs[i].1, &subs[j].1).content_mode() != gmode {
+                        continue;
+                    }
+                    let (mut ps, mut pl) = (mk(true), mk(false));
+                    let rs = ps.check_element_conflict(subs[j].0, t, &subs[i].1, &subs[j].1);
+                    let rl = pl.check_element_conflict(subs[j].0, t, &subs[i].1, &subs[j].1);
+                    relation(&rs, &rl, &pl);
+                    let conflict = i != j && gmode == ContentMode::Choice;
+                    vk_check!(rs.is_err() == conflict, "strict choice-conflict check differs from the documented rule");
+                    return;
+                }
+            }
+        }
+    } else {
+        // sub-element lookup with version
+        let listed = vk::any_bool();
+        let available = vk::any_bool();
+        for t in n_all_types() {
+            if !listed {
+                let (mut ps, mut pl) = (mk(true), mk(false));
+                let rs = ps.find_element_in_spec_checked(ElementName::Autosar, t).map(|_| ());
+                let rl = pl.find_element_in_spec_checked(ElementName::Autosar, t).map(|_| ());
+                relation(&rs, &rl, &pl);
+                vk_check!(rs.is_err(), "strict loading accepts a sub-element that is unknown in its context");
+                return;
+            }
+            for (name, _st, mask, _) in t.sub_element_spec_iter() {
+                if (mask & (version as u32) != 0) != available {
+                    continue;
+                }
+                if t.find_sub_element(name, version as u32).is_some() != available {
+                    continue;
+                }
+                let (mut ps, mut pl) = (mk(true), mk(false));
+                let rs = ps.find_element_in_spec_checked(name, t).map(|_| ());
+                let rl = pl.find_element_in_spec_checked(name, t).map(|_| ());
+                relation(&rs, &rl, &pl);
+                vk_check!(rs.is_ok() == available, "strict loading accepts a sub-element that is not available in the file version (or rejects one that is)");
+                return;
+            }
+        }
+    }
+}
